@@ -116,7 +116,7 @@ func ruleNegotiationSymmetry(c *Ctx, rule string) {
 				return
 			}
 			for _, a := range call2.Call.Args {
-				if via == nil && isFlag(a) {
+				if via == nil && (isFlag(a) || isFlag(origin(a))) {
 					okFlow = true
 				}
 				if via != nil && stripConv(a) == ssa.Value(via) {
@@ -139,6 +139,11 @@ func ruleNegotiationSymmetry(c *Ctx, rule string) {
 		for _, cv := range gets {
 			if _, isPath := want[roleOf(fn)]; isPath || !w.isPrivateHelper(fn) {
 				detect(fn, cv, fn, nil)
+				continue
+			}
+			if root := regionRoot(fn); root != fn {
+				// part of an opening path that was split into helpers used at one place each
+				detect(fn, cv, root, nil)
 				continue
 			}
 			// a predicate helper shared by several opening paths: one detection per call site
@@ -171,31 +176,29 @@ func ruleNegotiationSymmetry(c *Ctx, rule string) {
 			c.fail(rule, name, "-", "not found")
 			continue
 		}
+		// the context the carrier is opened with is AppendToOutgoingContext(ctx, key, val), written here or in a helper
 		ok := false
-		for _, call := range callsNamed(fn, "google.golang.org/grpc/metadata.AppendToOutgoingContext") {
-			d := desc(call.(*ssa.Call).Call.Args[1])
-			_ = d
-			// variadic kv slice: check constants stored
-			if sl, isSl := call.Common().Args[1].(*ssa.Slice); isSl {
+		allInstrs(fn, func(in ssa.Instruction) {
+			ci, isC := in.(*ssa.Call)
+			if !isC || !ci.Call.IsInvoke() || !strings.HasPrefix(ci.Call.Method.Name(), "Open") || len(ci.Call.Args) == 0 {
+				return
+			}
+			ac, isA := origin(ci.Call.Args[0]).(*ssa.Call)
+			if !isA || calleeName(ac) != "google.golang.org/grpc/metadata.AppendToOutgoingContext" {
+				c.fail(rule, name+": carrier opened with the negotiating context", w.At(ci), "the carrier stream is opened with "+desc(ci.Call.Args[0])+", a context that does not carry the negotiate header")
+				return
+			}
+			if sl, isSl := ac.Call.Args[1].(*ssa.Slice); isSl {
 				if arr, isAl := sl.X.(*ssa.Alloc); isAl {
 					vals := arrayStores(arr)
 					if len(vals) == 2 && desc(vals[0]) == negotiateKey && desc(vals[1]) == negotiateVal {
 						ok = true
 						att++
-						// the augmented context is the one the carrier is opened with
-						opened := false
-						allInstrs(fn, func(in ssa.Instruction) {
-							if ci, isC := in.(*ssa.Call); isC && ci.Call.IsInvoke() && strings.HasPrefix(ci.Call.Method.Name(), "Open") {
-								if origin(ci.Call.Args[0]) == ssa.Value(call.(*ssa.Call)) {
-									opened = true
-								}
-							}
-						})
-						c.check(opened, rule, name+": carrier opened with the negotiating context", w.At(call), "stub.Open*(ctx with negotiate header)", "the carrier stream is opened with a context that does not carry the negotiate header")
+						c.ok(rule, name+": carrier opened with the negotiating context", w.At(ci), "stub.Open*(ctx with negotiate header)")
 					}
 				}
 			}
-		}
+		})
 		c.check(ok, rule, name+": attaches the negotiate header to the request", posOf(w, fn), "AppendToOutgoingContext(ctx, key, val)", "the client side no longer advertises negotiation: flow control is silently never used")
 	}
 	for _, name := range []string{"(*TunnelServiceHandler).openTunnel", "(*TunnelServiceHandler).openReverseTunnel"} {
